@@ -25,7 +25,9 @@ where
     C: Clone + Send + Sync + 'static,
     B: Fn(&C) -> explore::ExecReport + Send + Sync + Clone + 'static,
 {
-    let totals = Mutex::new((0u64, 0u64, 0u64, 0u32, Vec::<Value>::new()));
+    // Totals accumulate over the `drive` calls of one run.
+    static TOTALS: Mutex<(u64, u64, u64, u32, Vec<Value>)> = Mutex::new((0, 0, 0, 0, Vec::new()));
+    let totals = &TOTALS;
     ctx.par_for_each(&configs, |l, cfg| {
         let c2 = cfg.clone();
         let b2 = body.clone();
@@ -57,15 +59,20 @@ where
             t.3 = t.3.max(s.max_deviations_used);
         }
         let completed = res.per_bound.last().map(|(b, _)| *b).unwrap_or(0);
+        if t.4.len() >= 150 {
+            // long families of similar configurations: listed through their
+            // outcome classes only
+            return;
+        }
         t.4.push(json!({"config": label(cfg), "max_bound_completed": completed, "per_bound": explore::stats_json(&res.per_bound), "distinct_outcomes": res.outcomes.len()}));
     });
-    let t = totals.into_inner().unwrap();
+    let t = totals.lock().unwrap();
     ctx.set_extra("traces_validated_against_impl", json!(t.0));
     ctx.set_extra("transitions", json!(t.1));
     ctx.set_extra("states", json!(t.2));
     ctx.set_extra("schedules", json!(t.0));
     ctx.set_extra("max_deviations_used", json!(t.3));
-    ctx.set_extra("per_config", Value::Array(t.4));
+    ctx.set_extra("per_config", Value::Array(t.4.clone()));
 }
 
 fn replay_generic<C: Clone + Send + Sync + 'static>(ctx: &Ctx, configs: Vec<C>, label: impl Fn(&C) -> String, body: impl Fn(&C) -> explore::ExecReport + Send + Sync + Clone + 'static) {
@@ -123,7 +130,9 @@ fn main() {
         "C29" => {
             let cfgs = c29::configs(ctx.quick());
             if ctx.replay_case().is_some() {
-                replay_generic(&ctx, c29::configs(false), |c| c.label(), |c| c29::body(c));
+                let mut all = c29::configs(false);
+                all.extend(c29::pool_histories(6));
+                replay_generic(&ctx, all, |c| c.label(), |c| c29::body(c));
                 ctx.finish("model_checking", "replay of one recorded schedule", false);
             }
             let quick = ctx.quick();
@@ -132,10 +141,21 @@ fn main() {
             // wherever bound 2 took < 30k.
             let (mb, pb): (u32, &[u64]) = if quick { (2, &[500, 2_500]) } else { (3, &[10_000, 100_000, 30_000]) };
             drive(&ctx, cfgs, |c| c.label(), |c| c.to_json(), mb, pb, 40_000_000, |c| c29::body(c));
+            // Histories of pool-level operations (several pools per group,
+            // pools shut down on their own, pools started afterwards): every
+            // history of <= 5 (thorough 6) operations under every schedule
+            // without deviations, and every history of <= 3 (thorough 4)
+            // operations with one deviation.
+            let (long, short) = if quick { (5, 3) } else { (6, 4) };
+            let hist: Vec<c29::Cfg> = c29::pool_histories(long).into_iter().filter(|c| c.n_ops() > short).collect();
+            let hist_short = c29::pool_histories(short);
+            ctx.set_extra("pool_operation_histories", json!({"max_ops_bound0": long, "max_ops_bound1": short, "histories": hist.len() + hist_short.len()}));
+            drive(&ctx, hist, |c| c.label(), |c| c.to_json(), 0, &[], 40_000_000, |c| c29::body(c));
+            drive(&ctx, hist_short, |c| c.label(), |c| c.to_json(), 1, &[u64::MAX], 40_000_000, |c| c29::body(c));
             ctx.assume("sequentially consistent interleavings at synchronisation operations (all shared state of thread.rs is behind Mutex/Condvar); virtual time: a wait_timeout expiry is a scheduler choice");
             ctx.finish(
                 "model_checking",
-                "every schedule (thread interleaving at each lock/unlock/wait/notify/spawn/exit, plus every condvar-timeout firing) with at most k deviations (preemptions or timers landing first), k iterated 0..=bound, of each pool scenario on the unmodified thread.rs; oracle: accepted tasks run exactly once and before await_shutdown returns, rejected never run, post-shutdown submissions rejected, no deadlock/livelock. states = choice points of the schedule tree, transitions = scheduling steps, traces_validated_against_impl = schedules executed on the real code",
+                "every schedule (thread interleaving at each lock/unlock/wait/notify/spawn/exit, plus every condvar-timeout firing) with at most k deviations (preemptions or timers landing first), k iterated 0..=bound, of each pool scenario, and of every history of <= 5 (thorough 6) pool-level operations (start pool / shut one pool down / submit, up to three pools per group; k = 0 beyond 3 (thorough 4) operations, k <= 1 up to there), on the unmodified thread.rs; oracle: accepted tasks run exactly once and before await_shutdown returns, rejected never run, post-shutdown submissions rejected, no deadlock/livelock. states = choice points of the schedule tree, transitions = scheduling steps, traces_validated_against_impl = schedules executed on the real code",
                 true,
             );
         }
